@@ -94,6 +94,7 @@ type p2Spec struct {
 	Extras int    `json:"extras"` // extra messages per case (0..2)
 	Timer  bool   `json:"timer"`  // the step-4 timer is one of the interleaved events
 	Stale  bool   `json:"stale"`  // the node went through the previous round index first; votes of that index are in the alphabet
+	Full   bool   `json:"full"`   // every order is executed to its end; otherwise an order is executed up to the delivery at which the reference commits, and orders sharing that prefix (identical executions up to the commit) run once
 }
 
 func (s p2Spec) name() string {
@@ -125,6 +126,8 @@ type p2Scn struct {
 	bwire  map[string][]byte // block name -> block-proposal wire bytes
 	old    map[string]*types.Block
 	cases  []*p2Case
+	byKey  map[string]*p2Case
+	orders int
 }
 
 type p2Case struct {
@@ -132,6 +135,7 @@ type p2Case struct {
 	Subset  int      `json:"subset_mask"`
 	Variant string   `json:"variant"`
 	Msgs    []string `json:"deliveries"`
+	Covers  int      `json:"orders_sharing_this_prefix"`
 	scn     *p2Scn
 }
 
@@ -468,8 +472,52 @@ func (s *p2Scn) extras1(in map[string]bool, defects []string) []p2Extra {
 }
 
 func (s *p2Scn) addCase(mask int, variant string, msgs []string) {
+	s.orders++
 	cp := append([]string{}, msgs...)
-	s.cases = append(s.cases, &p2Case{Spec: s.spec, Subset: mask, Variant: variant, Msgs: cp, scn: s})
+	if !s.spec.Full && !s.spec.Cert {
+		if k := s.predictCommit(cp); k < len(cp) {
+			cp = cp[:k+1]
+		}
+	}
+	key := strings.Join(cp, ",")
+	if s.byKey == nil {
+		s.byKey = map[string]*p2Case{}
+	}
+	if old, ok := s.byKey[key]; ok {
+		old.Covers++
+		return
+	}
+	cs := &p2Case{Spec: s.spec, Subset: mask, Variant: variant, Msgs: cp, Covers: 1, scn: s}
+	s.byKey[key] = cs
+	s.cases = append(s.cases, cs)
+}
+
+// predictCommit runs the reference tally over an order (no crypto) and returns the position of the delivery at
+// which the reference commits: -1 = already during the node's own set-up, len(msgs) = never.
+func (s *p2Scn) predictCommit(msgs []string) int {
+	ref := newP2Ref()
+	if s.member {
+		pv := s.seats(s.me, ucon.Prevote, s.ri)
+		for _, m := range s.voters {
+			pv += s.seats(m, ucon.Prevote, s.ri)
+		}
+		if own := s.seats(s.me, ucon.Precommit, s.ri); pv >= s.q && own > 0 {
+			ref.count(ucon.Precommit, s.me.Name, "A", own)
+			if own >= s.q {
+				return -1
+			}
+		}
+	}
+	for i, name := range msgs {
+		m, err := s.parse(name)
+		if err != nil || !m.valid(s) || m.block == "Z" || m.kind != ucon.Precommit {
+			continue
+		}
+		if ref.count(m.kind, m.sender.Name, m.block, s.seats(m.sender, m.kind, s.ri)) == "new" && ref.weight[int(ucon.Precommit)][m.block] >= s.q {
+			return i
+		}
+	}
+	return len(msgs)
 }
 
 // generate builds the case list: subset × extras × every distinct order.
@@ -999,6 +1047,13 @@ func (s *p2Scn) voteOf(name string) *ucon.SingleVote {
 	return b.Vote
 }
 
+type p2Verdict struct {
+	err   error
+	panic string
+}
+
+var p2Verdicts sync.Map
+
 // checkCommit: the oracle on one CommitEvent.
 func (s *p2Scn) checkCommit(cs *p2Case, res *p2Result, ref *p2Ref, x *p2Node, ev *ucon.CommitEvent, event string, logf func(string, ...interface{})) {
 	c := s.c
@@ -1084,9 +1139,20 @@ func (s *p2Scn) checkCommit(cs *p2Case, res *p2Result, ref *p2Ref, x *p2Node, ev
 			{"VerifySeal", func() error { return c01.VerifySeal(c, p.h) }},
 			{"VerifySideChainHeader", func() error { return c01.VerifySideChain(c, p.h) }},
 		} {
+			// the verifier is a function of the header bytes and the (fixed) look-back chain: byte-identical
+			// headers (same votes in the same list order) are verified once
+			mk := fmt.Sprintf("%s|%v|%s|%x|%x|%x", c.Name, c.IsCert, path.name, p.h.Hash(), p.h.Validator, p.h.Certificate)
 			var err error
-			pmsg := mc.Catch(func() { err = path.f() })
-			res.count("headers verified")
+			var pmsg string
+			if v, ok := p2Verdicts.Load(mk); ok {
+				vd := v.(p2Verdict)
+				err, pmsg = vd.err, vd.panic
+				res.count("headers byte-identical to an already verified one (verdict reused)")
+			} else {
+				pmsg = mc.Catch(func() { err = path.f() })
+				p2Verdicts.Store(mk, p2Verdict{err, pmsg})
+				res.count("headers verified")
+			}
 			switch {
 			case pmsg != "":
 				res.viol(fmt.Sprintf("%s panicked on the header packed from a CommitEvent", path.name), fmt.Sprintf("%s [%s]: %s", event, p.by, pmsg))
@@ -1211,16 +1277,18 @@ func (s *p2Scn) checkPacked(res *p2Result, by string, h *types.Header, ev *ucon.
 func p2Plans(quick bool) (specs []p2Spec, defects []string) {
 	if quick {
 		defects = []string{"claim"}
-		for _, cfg := range []string{"a", "b", "b-", "c"} {
-			specs = append(specs, p2Spec{Cfg: cfg, Me: "out", Extras: 1})
+		specs = []p2Spec{
+			// outsider node: all four entitled members are senders
+			{Cfg: "b", Me: "out", Extras: 1},  // the whale alone weighs exactly the quorum; B can win
+			{Cfg: "c", Me: "out", Extras: 1},  // four equal members (as in a) + house / offline / zero-stake senders
+			{Cfg: "a", Me: "out", Extras: 0},  // (a) itself: plain subsets × orders (its extras are left to thorough: c contains it)
+			{Cfg: "b-", Me: "out", Extras: 0}, // the whale alone is one seat short of the quorum
+			// member nodes: the own precommit is signed by the real Voter after a real prevote quorum
+			{Cfg: "b", Me: "b0", Extras: 0}, // commit by the own vote alone, exactly at the quorum
+			{Cfg: "b", Me: "b1", Extras: 1},
+			{Cfg: "a", Me: "a0", Extras: 1},
+			{Cfg: "b-", Me: "b0", Extras: 1}, // own vote one seat below the quorum
 		}
-		// member nodes: the own precommit is signed by the real Voter after a real prevote quorum
-		specs = append(specs,
-			p2Spec{Cfg: "b", Me: "b0", Extras: 0}, // the whale alone weighs exactly the quorum: commit by the own vote alone
-			p2Spec{Cfg: "b", Me: "b1", Extras: 1},
-			p2Spec{Cfg: "a", Me: "a0", Extras: 1},
-			p2Spec{Cfg: "b-", Me: "b0", Extras: 1}, // own vote one seat below the quorum
-		)
 		return
 	}
 	defects = []string{"claim", "wrongsig"}
@@ -1253,13 +1321,14 @@ func part2(r *mc.Run) {
 	if only := os.Getenv("VERIF_C03_P2_ONLY"); only != "" {
 		var f []p2Spec
 		for _, s := range specs {
-			if strings.HasPrefix(s.name(), only) {
+			if strings.HasPrefix(s.Cfg+"/"+s.Me, only) {
 				f = append(f, s)
 			}
 		}
 		specs = f
 	}
 	var all []*p2Case
+	orders := 0
 	scnInfo := map[string]interface{}{}
 	for _, sp := range specs {
 		if r.Expired() {
@@ -1308,32 +1377,48 @@ func part2(r *mc.Run) {
 				r.Count("p2 subsets below the quorum", 1)
 			}
 		}
-		scnInfo[sp.name()] = map[string]interface{}{"round": s.c.Round, "round_index": s.ri, "quorum": s.q, "node": s.me.Name, "node_own_precommit_seats": own,
+		orders += s.orders
+		scnInfo[s.spec.name()] = map[string]interface{}{"delivery_orders": s.orders, "round": s.c.Round, "round_index": s.ri, "quorum": s.q, "node": s.me.Name, "node_own_precommit_seats": own,
 			"sender_precommit_seats": strings.Join(seats, " "), "non_entitled_senders": len(s.others), "cases": len(s.cases)}
 	}
 	r.Count("p2 scenarios", int64(len(scnInfo)))
 	var sampleMu sync.Mutex
 	var samples []interface{}
 	var done int64
+	var flaky sync.Map
 	r.ForEach(len(all), func(w, i int) {
 		cs := all[i]
 		res := cs.scn.runCase(cs, false)
 		atomic.AddInt64(&done, 1)
 		r.Distinct(fmt.Sprintf("p2|%s|%d|%s|%s", cs.Spec.name(), cs.Subset, cs.Variant, strings.Join(cs.Msgs, ",")))
-		r.Count("p2 cases (orders) executed", 1)
+		r.Count("p2 executions", 1)
+		r.Count("p2 delivery orders covered by the executions", int64(cs.Covers))
 		r.Count("p2 variant: "+cs.Variant, 1)
 		for k, n := range res.counts {
 			r.Count(k, n)
 		}
 		if len(res.viols) > 0 {
-			// determinism gate: a violation counts only if the same case shows it again
+			// determinism gate: a violation counts only if the same case shows it again (up to three
+			// re-executions: the order in which PackVotes lists the votes follows Go's map iteration, so a
+			// defect that depends on that order need not show on every execution)
 			again := map[string]bool{}
-			for _, g := range cs.scn.runCase(cs, false).viols {
-				again[g.Sig] = true
+			for k := 0; k < 3; k++ {
+				for _, g := range cs.scn.runCase(cs, false).viols {
+					again[g.Sig] = true
+				}
+				all := true
+				for _, v := range res.viols {
+					all = all && again[v.Sig]
+				}
+				if all {
+					break
+				}
 			}
 			for _, v := range res.viols {
 				if !again[v.Sig] {
-					r.HarnessError(fmt.Sprintf("part2: violation %q of %s %v did not reproduce on re-execution", v.Sig, cs.Spec.name(), cs.Msgs))
+					if _, dup := flaky.LoadOrStore(v.Sig, true); !dup {
+						r.HarnessError(fmt.Sprintf("part2: violation %q of %s %v did not reproduce on three re-executions", v.Sig, cs.Spec.name(), cs.Msgs))
+					}
 					continue
 				}
 				v.System, v.Config, v.Input = p2System, cs.Spec.name(), cs
@@ -1348,7 +1433,7 @@ func part2(r *mc.Run) {
 			sampleMu.Unlock()
 		}
 	})
-	r.SetExtra("part2", map[string]interface{}{"scenarios": scnInfo, "cases_generated": len(all), "cases_executed": atomic.LoadInt64(&done),
+	r.SetExtra("part2", map[string]interface{}{"scenarios": scnInfo, "delivery_orders_enumerated": orders, "executions_planned": len(all), "executions_done": atomic.LoadInt64(&done),
 		"samples": samples, "wall_s": time.Since(start).Seconds()})
 }
 
